@@ -23,10 +23,18 @@ def ArgsOK : Args → Prop
   | .nil => True
   | .cons a rest => RvOK a ∧ ArgsOK rest
 
+/-- the `with` clause of a loop: pure operands -/
+def WithOK : WithClause → Prop
+  | .fromTo _ a b => RvOK a ∧ RvOK b
+  | .cycle _ start => match start with | some r => RvOK r | none => True
+
 def LoopHdrOK : LoopHdr → Prop
   | .forever => True
   | .count n => RvOK n
   | .while_ c => RvOK c
+  | .range _ a b => RvOK a ∧ RvOK b
+  | .interp n v a b => RvOK n ∧ WithOK (.fromTo v a b)
+  | .cycle n v start => RvOK n ∧ WithOK (.cycle v start)
   | _ => False
 
 mutual
@@ -237,7 +245,7 @@ theorem stmt_timeAt (f : Nat) (ps : List TP.Pat) : StmtGoal img K (.timeAt ps) (
       fun t ht => ⟨?_, ?_⟩
     · rw [ht.1]; simp [Target]; omega
     · have h2 := ht.2
-      refine ⟨h2.running, h2.stack, h2.loops, h2.eval, h2.unnamed, h2.locals, h2.status, h2.globals,
+      refine ⟨h2.running, h2.stack, h2.loops, h2.eval, h2.unnamed, h2.locals, h2.status, h2.umode, h2.globals,
         h2.constants, h2.lights, h2.trace, h2.defaultColor, h2.matrix, h2.draws, fun r hr => ?_⟩
       rw [← h2.regs r hr]
       simp only [S.setReg, State.setReg]
@@ -580,7 +588,7 @@ theorem stmt_get (f : Nat) (name : Rv) (hv : RvOK name) : StmtGoal img K (.get n
     rw [hres] at ht2
     have hsim : SimU K stk [] ((σ1.setReg .result n).setReg .name n) t2 := by
       have := ht2.2
-      refine ⟨this.running, this.stack, this.loops, this.eval, this.unnamed, this.locals, this.status,
+      refine ⟨this.running, this.stack, this.loops, this.eval, this.unnamed, this.locals, this.status, this.umode,
         this.globals, this.constants, this.lights, this.trace, this.defaultColor, this.matrix, this.draws,
         fun r hr => ?_⟩
       rw [← this.regs r hr]
